@@ -6,4 +6,4 @@ import (
 	"verif/sim/simkit"
 )
 
-func TestC26(t *testing.T) { simkit.Main(t, SpecC26()) }
+func TestC26(t *testing.T) { simkit.Main(t, SpecC26both()) }
